@@ -1164,7 +1164,7 @@ class VM:
                 if not info or not info[0]:
                     continue
                 tr = self._strip_generics(info[0]).split('::')[-1].strip()
-                if tr != trait:
+                if tr != trait and not tr.startswith('$'):
                     continue
                 cands.append((name, info[1]))
             if not cands:
@@ -1177,6 +1177,11 @@ class VM:
             best = [n for n, t in cands if self.type_head(t) == tyh]
             if len(best) == 1:
                 return best[0]
+            if len(best) > 1:
+                # macro-generated impls (same span): pick by the receiver type in the signature (&T vs T)
+                sig = [n for n in self.prog.by_signature(meth, first_param=ty) if n.split('@@')[0] in best]
+                if len(sig) == 1:
+                    return sig[0]
             if not best and len(cands) == 1:
                 return cands[0][0]
             if best:
@@ -1205,6 +1210,17 @@ class VM:
             scored.sort(reverse=True)
             if len(scored) == 1 or scored[0][0] > scored[1][0]:
                 return scored[0][1]
+            # `path::Type::method`: an inherent or trait method of Type
+            if len(segs) >= 2 and segs[-2][:1].isupper():
+                want = segs[-2]
+                hit = []
+                for k, n in scored:
+                    info = self.prog.impl_info(n)
+                    if info and self.type_head(info[1]) == want:
+                        hit.append(n)
+                if len(hit) >= 1:
+                    inherent = [n for n in hit if not self.prog.impl_info(n)[0]]
+                    return (inherent or hit)[0]
             # tie: impl methods on a type named in the callee
             mm = re.search(r'<impl ([\w:]+)', callee)
             if mm:
